@@ -197,14 +197,14 @@ func (p *annotParser) typ(gt reflect.Type, annotated bool) (*Type, error) {
 		if annotated {
 			w := p.name()
 			if w == "i64" {
-				return &Type{Kind: KI64, Named: gt.Name() != "" && gt.Name() != "int64" && gt.Name() != "int"}, nil
+				return &Type{Kind: KI64, Named: gt.Name() != "" && gt.Name() != "int64" && gt.Name() != "int", GoInt: gt.Kind() == reflect.Int}, nil
 			}
 			if gt.Name() != "" && gt.Name() != "int64" && gt.Name() != "int" && w == gt.Name() {
-				return &Type{Kind: KEnum}, nil
+				return &Type{Kind: KEnum, GoInt: gt.Kind() == reflect.Int}, nil
 			}
 			return nil, fmt.Errorf("annotation %q does not fit Go type %s", w, gt)
 		}
-		return &Type{Kind: KI64}, nil
+		return &Type{Kind: KI64, GoInt: gt.Kind() == reflect.Int}, nil
 	case reflect.Float64:
 		return scalar(KDouble, "double")
 	case reflect.String:
